@@ -54,7 +54,7 @@ pub fn generate(seed: u64, j: u64, methods: &[String]) -> Scenario {
     pos -= CRASH_MAX;
     if pos < ENOSPC_MAX {
         sc.template = format!("sweep-base-{k}:ENOSPC@write{pos}");
-        sc.fault_specs.push(FaultSpec { step: 0, target: "any".into(), op: "write".into(), at: 0, abs: Some(pos as i64), kind: "ENOSPC".into(), arg: 0 });
+        sc.fault_specs.push(FaultSpec { step: 0, target: "any".into(), op: "write".into(), at: 0, abs: Some(pos as i64), kind: "ENOSPC".into(), arg: 1 });
         return sc;
     }
     pos -= ENOSPC_MAX;
